@@ -65,13 +65,16 @@ theorem dropped_never_nodry (P : Params) (dry : Bool) (ops : List Op) (t : Nat)
 
 /-- **kept_all** — once `tracesToSend` holds nothing of trace `t`, every accepted span of a kept
 trace whose decision is still remembered has been forwarded exactly once: none is lost, none is
-duplicated.  (Late spans included; dry run may toggle arbitrarily.) -/
+duplicated.  (Late spans and spans taken by the stress-relief path included; dry run may toggle and
+the kept capacity may be resized arbitrarily; `StressConstant`: stress relief did not decide the
+trace while spans of it were buffered.) -/
 theorem kept_all (P : Params) (dry : Bool) (ops : List Op) (t : Nat)
     (hrem : Remembered (run P dry ops) t)
+    (hsc : StressConstant (run P dry ops) t)
     (hkept : ∃ d ∈ (run P dry ops).decisions, d.trace = t ∧ d.keep = true)
     (hdrained : ∀ sd ∈ (run P dry ops).toSend, sd.trace ≠ t) :
     ∀ sp ∈ (run P dry ops).accepted, sp.trace = t → timesForwarded (run P dry ops) sp.id = 1 :=
-  kept_all_of_inv (inv_run P dry ops) t hrem hkept hdrained
+  kept_all_of_inv (inv_run P dry ops) t hrem hsc hkept hdrained
 
 /-- **no_undecided_send** — a span is forwarded only for a trace that has been decided; the one
 exception the code allows is a false positive of the dropped-trace filter under dry run (the span
@@ -86,10 +89,15 @@ theorem no_undecided_send (P : Params) (dry : Bool) (ops : List Op) :
     obtain ⟨d, hd, hdt, _⟩ := (h.outWet f hf hdry).2
     exact Or.inl ⟨d, hd, hdt⟩
   | true =>
-    obtain ⟨k, _, hor, _⟩ := h.outDry f hf hdry
-    rcases hor with ⟨d, hd, hdt, _⟩ | ⟨_, hfp⟩
-    · exact Or.inl ⟨d, hd, hdt⟩
-    · exact Or.inr hfp
+    cases hst : f.stress with
+    | true =>
+      obtain ⟨_, d, hd, hdt, _⟩ := h.outStress f hf hst
+      exact Or.inl ⟨d, hd, hdt⟩
+    | false =>
+      obtain ⟨k, _, hor⟩ := h.outDry f hf hdry hst
+      rcases hor with ⟨d, hd, hdt, _⟩ | ⟨_, hfp⟩
+      · exact Or.inl ⟨d, hd, hdt⟩
+      · exact Or.inr hfp
 
 /-- a decision always goes through: after `decide t` the trace is out of the buffer (a decision
 cannot be refused; `makeDecision` only errors for a trace already sent, which is never buffered) -/
@@ -204,12 +212,13 @@ theorem eventually_decided (P : Params) (s : St) :
   exact ⟨by rw [this.2]; exact hempty, this.1⟩
 
 
-/-- every accepted span is accounted for: buffered, queued for `sendTraces`, forwarded or dropped
-— exactly one of them (conservation; nothing vanishes, in any history). -/
+/-- every accepted span is accounted for: buffered, queued for `sendTraces`, forwarded, dropped by a
+decision or dropped by stress relief — exactly one of them (conservation; nothing vanishes, in any history). -/
 theorem conservation (P : Params) (dry : Bool) (ops : List Op) (sp : SpanRec)
     (hsp : sp ∈ (run P dry ops).accepted) :
     (ids (run P dry ops).buf).count sp.id + (sendIds (run P dry ops).toSend).count sp.id
-      + timesForwarded (run P dry ops) sp.id + (ids (run P dry ops).discarded).count sp.id = 1 := by
+      + timesForwarded (run P dry ops) sp.id + (ids (run P dry ops).discarded).count sp.id
+      + (ids (run P dry ops).stressDropped).count sp.id = 1 := by
   have h := inv_run P dry ops
   have := h.cons sp.id
   rw [if_pos (id_lt h hsp)] at this
